@@ -115,7 +115,7 @@ PROPS["C19"] = {
     "claim": "explicit-state model checking of the one-variable generator: all 2^31-2 states of the cycle are visited (256 arcs joined by modular-exponentiation jump-ahead, closure checked); in each state the successor equals 16807*s mod (2^31-1) (64-bit arithmetic) and, for every maxv of the tier's list, the returned value equals the RFC expression, lies in 0..maxv-1 and equals the exact floor whenever s'*maxv < 2^53; seeding accepts exactly 1..2^31-2 on the enumerated windows; the 10000th state after seed 1 is 1043618065",
     "technique": "exhaustive explicit-state enumeration of the generator's full cycle (2^31-2 states) against the reference transition function",
     "rule": "states = values of of_seed visited (full cycle); transitions = library calls compared (states x maxv list); every state is distinct by construction",
-    "bounds": {"quick": "all 2^31-2 states x 19 maxv values {1,2,3,5,255,256,1000,65535,65536,2^20, and nine values above 2^22 up to 12750000}; every maxv in 1..2^20 x a band of 4099 states (first and last 2048 of the cycle from seed 1, 2^31-2, 2^30, 2^30+1)", "thorough": "all states x 120 maxv values (all <=64, 2^e and 2^e+-1 up to 2^24, 150000, 12749999, 12750000); every maxv in 1..2^22 x the band"},
+    "bounds": {"quick": "all 2^31-2 states x 19 maxv values {1,2,3,5,255,256,1000,65535,65536,2^20, and nine values above 2^22 up to 12750000}; every maxv in 1..2^20 x a band of 4099 states (first and last 2048 of the cycle from seed 1, 2^31-2, 2^30, 2^30+1); every maxv in 1..12750000 x the 8 critical states whose product s'*maxv is within 4 of a multiple of 2^31-1", "thorough": "all states x 120 maxv values (all <=64, 2^e and 2^e+-1 up to 2^24, 150000, 12749999, 12750000); every maxv in 1..2^22 x the band"},
     "assumptions": ["'all maxv x all states' (2.7e16) is out of reach: two explicit products instead (all states x a maxv list, all maxv the library can pass x a band of states)", "reference transition: 64-bit (s*16807) % (2^31-1); exact floor by 128-bit integer arithmetic"],
     "runs": [{"name": "prng", "src": "h_prng.c", "variant": "plain"}],
 }
@@ -125,8 +125,8 @@ PROPS["C20"] = {
     "claim": "complete enumeration of the (T,B) square and the (L,E,B) cube up to the tier's bound plus a boundary cross product up to 2^32-1, every result compared with integer-only RFC 5052 arithmetic (N, A_small, A_large<=B, I, I*A_large+(N-I)*A_small=T)",
     "technique": "exhaustive enumeration of a bounded input space against a reference model",
     "rule": "every (L,E,B) triple is one case; states = transitions = triples evaluated on the real function",
-    "bounds": {"quick": "T,B in 1..1500 (E=1); L in 1..256 x E in 1..32 x B in 1..32; boundary grid L in {2^k-1,2^k,2^k+1} x E in {1,2,3,1024,2^31,2^32-1} x B in {1,2,3,255,50000,2^31-1,2^31,2^32-1}; every T in 1..2^19 x 40 values of B (1..2^24+1) with E=1 and, for a third of them, E in {2,1024,1500} at the three lengths around T*E",
-               "thorough": "T,B in 1..4096; L in 1..512 x E,B in 1..64; same boundary grid; every T in 1..2^22 x the 40 values of B"},
+    "bounds": {"quick": "T,B in 1..1500 (E=1); L in 1..256 x E in 1..32 x B in 1..32; boundary grid L in {2^k-1,2^k,2^k+1} x E in {1,2,3,1024,2^31,2^32-1} x B in {1,2,3,255,50000,2^31-1,2^31,2^32-1}; every T in 1..2^19 x 40 values of B (1..2^24+1) with E=1 and, for a third of them, E in {2,1024,1500} at the three lengths around T*E; near-exact divisions T = N*A + r (r in {0,1,2,N-2,N-1}) for N in 1..4096 x 50 values of A with B in {A-1,A,A+1}, E in {1,1316}",
+               "thorough": "T,B in 1..4096; L in 1..512 x E,B in 1..64; same boundary grid; every T in 1..2^22 x the 40 values of B; near-exact divisions for N up to 20000"},
     "assumptions": ["beyond the enumerated squares/cubes only the boundary grid is visited"],
     "runs": [{"name": "block", "src": "h_block.c", "variant": "plain", "no_lib": True}],
 }
